@@ -450,6 +450,7 @@ META = {
             "a Python set as model; every state gets len/iteration/membership/triples(pattern) for all eight shapes compared as "
             "multisets. On the default store all interleavings of open-iterator steps with up to m mutations are executed to completion.",
     "note": "Small scope: 8 (12 in one thorough instance) triples per instance, one falsy/lang literal kind per instance; closure holds "
-            "for histories of any length over that vocabulary; single-threaded interleaving only (as the property states).",
+            "for histories of any length over that vocabulary; single-threaded interleaving only (as the property states). Binary operations: 4 operand sets incl. the empty one, "
+            "each also under the left graph's identifier; both operands are kept and re-checked in every later state.",
     "technique": "explicit-state BFS to closure over operation histories + exhaustive iterator/mutation merge enumeration",
 }
